@@ -708,4 +708,44 @@ theorem encodeBits_shape {L : Layouts} {cfg : EncCfg} {vals : List (List PVal)} 
       refine ⟨b0, d, rest0, restv, y, f.edition, e0.layout.index, fs, fl, b, d.toNat, rfl, hwl, hdlt, hdT, ?_, h2, htr, h4, h5⟩
       intro _ _; simp only [Int.ofNat_eq_natCast]; omega
 
+/-! ### bits <-> bytes -/
+
+theorem split8 (w : Bits) (h : 8 ≤ w.length) :
+    ∃ b0 b1 b2 b3 b4 b5 b6 b7 rest, w = b0 :: b1 :: b2 :: b3 :: b4 :: b5 :: b6 :: b7 :: rest := by
+  rcases w with _ | ⟨b0, _ | ⟨b1, _ | ⟨b2, _ | ⟨b3, _ | ⟨b4, _ | ⟨b5, _ | ⟨b6, _ | ⟨b7, rest⟩⟩⟩⟩⟩⟩⟩⟩ <;>
+    simp at h
+  exact ⟨b0, b1, b2, b3, b4, b5, b6, b7, rest, rfl⟩
+
+theorem byteBits_ofBits (l : Bits) (h : l.length = 8) : byteBits (UInt8.ofNat (ofBits l)) = l := by
+  have hlt := ofBits_lt l
+  rw [h] at hlt
+  unfold byteBits
+  have : (UInt8.ofNat (ofBits l)).toNat = ofBits l := by
+    rw [UInt8.toNat_ofNat']; omega
+  rw [this, ← h, toBits_ofBits]
+
+theorem bytesToBits_cons (b : UInt8) (bs : List UInt8) : bytesToBits (b :: bs) = byteBits b ++ bytesToBits bs := by
+  simp [bytesToBits]
+
+theorem bytesToBits_bitsToBytes : ∀ (n : Nat) (w : Bits), w.length = 8 * n → bytesToBits (bitsToBytes w) = w
+  | 0, w, h => by
+    have : w = [] := List.eq_nil_of_length_eq_zero (by omega)
+    subst this; rfl
+  | n + 1, w, h => by
+    obtain ⟨b0, b1, b2, b3, b4, b5, b6, b7, rest, rfl⟩ := split8 w (by omega)
+    have hr : rest.length = 8 * n := by simp only [List.length_cons] at h; omega
+    simp only [bitsToBytes, bytesToBits_cons]
+    rw [bytesToBits_bitsToBytes n rest hr, byteBits_ofBits _ rfl]
+    rfl
+
+theorem bitsToBytes_append (a : List UInt8) (rest : Bits) :
+    bitsToBytes (bytesToBits a ++ rest) = a ++ bitsToBytes rest := by
+  induction a with
+  | nil => rfl
+  | cons x xs ih =>
+    have h := ofNat_ofBits_byteBits x
+    simp only [bytesToBits_cons, List.append_assoc]
+    simp only [byteBits, toBits, List.cons_append, List.nil_append, bitsToBytes] at *
+    rw [ih, h]
+
 end Bufr
